@@ -157,7 +157,7 @@ impl Property for C05 {
         let aggregate = t.chance(1, 4);
         if aggregate {
             // aggregate over the joined rows: a combined table for the aggregate generator
-            let combined = DataTable { name: "t".into(), json: true, cols: cols.clone(), not_null: None };
+            let combined = DataTable { name: "t".into(), json: true, cols: cols.clone(), not_null: None, default_col: None };
             let mut g = AggGen { table: &combined, ctx, excluded: 0 };
             if t.chance(2, 3) {
                 q.group_by.push(E::col(&t.pick(&cols).0.clone()));
